@@ -132,6 +132,7 @@ RowSet == {[r |-> QAdd(a, v), v |-> v, ent |-> e] : a \in AdvE, v \in ValE, e \i
 ParSet == [lra : LrA, lrc : LrC, K : KSet]
 
 Idx == 1..n
+Tup(f) == SubSeq(f, 1, n)          \* TLC evaluates [i \in S |-> e] lazily on every application; SubSeq forces it once
 Entry(i) == A!PPORow(rows[i])                     \* advantage r - v and return (r - v) + v from the ENTRY critic
 Adv(i) == Entry(i).adv
 Ret(i) == Entry(i).ret
@@ -158,26 +159,26 @@ Enter == /\ stage = "rows" /\ Len(rows) = n
 RefUsed == IF DEV = "refresh" THEN disp ELSE ref
 EpochRec ==
   LET ru   == RefUsed
-      lrat == [i \in Idx |-> DSub(disp[i], ru[i])]                     \* log of the probability ratio
-      rg   == [i \in Idx |-> Region(lrat[i])]
-      rws  == [i \in Idx |-> [ratio |-> Rep(rg[i]), adv |-> Adv(i), ret |-> Ret(i), v |-> val[i], ent |-> rows[i].ent]]
+      lrat == Tup([i \in Idx |-> DSub(disp[i], ru[i])])                     \* log of the probability ratio
+      rg   == Tup([i \in Idx |-> Region(lrat[i])])
+      rws  == Tup([i \in Idx |-> [ratio |-> Rep(rg[i]), adv |-> Adv(i), ret |-> Ret(i), v |-> val[i], ent |-> rows[i].ent]])
       e    == A!EvalPPO("ppo", P, rws)                                  \* value / entropy terms and their derivatives
-      ds   == [i \in Idx |-> A!DSurr(P, rws[i])]                        \* d surrogate_i / d ratio_i
+      ds   == Tup([i \in Idx |-> A!DSurr(P, rws[i])])                        \* d surrogate_i / d ratio_i
       \* displacement step of sample i = c_i * ratio_i,  c_i = lr * (d surrogate / d ratio) / N
-      c    == [i \in Idx |-> QMul(QDiv(par.lra, I(n)), ds[i][1])]
-      expo == [i \in Idx |-> c[i] # Zero /\ rg[i] # "one"]
-      stp  == [i \in Idx |-> IF ~expo[i] THEN <<0, 0>>
+      c    == Tup([i \in Idx |-> QMul(QDiv(par.lra, I(n)), ds[i][1])])
+      expo == Tup([i \in Idx |-> c[i] # Zero /\ rg[i] # "one"])
+      stp  == Tup([i \in Idx |-> IF ~expo[i] THEN <<0, 0>>
                              ELSE IF ExpDomain(lrat[i].lo) /\ ExpDomain(lrat[i].hi)
-                                  THEN MulQ(c[i], ExpIv(<<lrat[i].lo, lrat[i].hi>>)) ELSE <<Neg(8 * F), 8 * F>>]
-      nd   == [i \in Idx |-> IF ~expo[i] THEN (IF disp[i].ex THEN DPt(QAdd(disp[i].q, c[i])) ELSE DIv(disp[i].lo + FDn(c[i]), disp[i].hi + FUp(c[i])))
-                             ELSE DIv(disp[i].lo + stp[i][1], disp[i].hi + stp[i][2])]
+                                  THEN MulQ(c[i], ExpIv(<<lrat[i].lo, lrat[i].hi>>)) ELSE <<Neg(8 * F), 8 * F>>])
+      nd   == Tup([i \in Idx |-> IF ~expo[i] THEN (IF disp[i].ex THEN DPt(QAdd(disp[i].q, c[i])) ELSE DIv(disp[i].lo + FDn(c[i]), disp[i].hi + FUp(c[i])))
+                             ELSE DIv(disp[i].lo + stp[i][1], disp[i].hi + stp[i][2])])
       \* surrogate of sample i as a linear form s_i * (ratio_i if sexp_i else 1)
-      act  == [i \in Idx |-> A!Active(P, rws[i])]
-      sur  == [i \in Idx |-> IF act[i] = "clipped" THEN A!S2(P, rws[i]) ELSE Adv(i)]
-      sexp == [i \in Idx |-> act[i] # "clipped" /\ rg[i] # "one"]
+      act  == Tup([i \in Idx |-> A!Active(P, rws[i])])
+      sur  == Tup([i \in Idx |-> IF act[i] = "clipped" THEN A!S2(P, rws[i]) ELSE Adv(i)])
+      sexp == Tup([i \in Idx |-> act[i] # "clipped" /\ rg[i] # "one"])
       \* judged against the ENTRY policy: is the sample clipped on the side its advantage favours?
-      rgE  == [i \in Idx |-> Region(disp[i])]
-      fav  == [i \in Idx |-> A!Favoured(P, [ratio |-> Rep(rgE[i]), adv |-> Adv(i)])]
+      rgE  == Tup([i \in Idx |-> Region(disp[i])])
+      fav  == Tup([i \in Idx |-> A!Favoured(P, [ratio |-> Rep(rgE[i]), adv |-> Adv(i)])])
   IN [epoch |-> k + 1,
       refk |-> IF \A i \in Idx : ru[i] = DPt(Zero) THEN "entry" ELSE "moved",
       region |-> rg, regionE |-> rgE, fav |-> fav,
@@ -185,7 +186,7 @@ EpochRec ==
       sur |-> sur, sexp |-> sexp, lval |-> e.val, lent |-> e.ent,
       before |-> disp, after |-> nd,
       \* critic: v <- v - lr_c * d loss / d v ; entropy table: ent <- ent - lr_a * d loss / d ent
-      v |-> [i \in Idx |-> QSub(val[i], QMul(par.lrc, e.gv[i]))],
+      v |-> Tup([i \in Idx |-> QSub(val[i], QMul(par.lrc, e.gv[i]))]),
       entstep |-> QNeg(QMul(par.lra, e.ge))]
 Epoch == /\ stage = "epochs" /\ k < par.K
          /\ LET h == EpochRec
@@ -220,10 +221,11 @@ EpTypeOK == /\ stage \in {"par", "rows", "epochs", "done"}
 EpDecidable == \A j \in HIdx : \A i \in Idx :
                  /\ hist[j].region[i] # "undecided" /\ hist[j].regionE[i] # "undecided"
                  /\ hist[j].point
-(* the derivative of the surrogate does not depend on the representative chosen inside a region *)
+(* the derivative of the surrogate does not depend on the representative chosen inside a region (checked once) *)
 EpRepresentative == \A rg \in {"above", "below", "in_up", "in_dn", "one"} : \A a \in AdvE :
                       /\ A!DSurr(P, [ratio |-> Rep(rg), adv |-> a]) = A!DSurr(P, [ratio |-> Rep2(rg), adv |-> a])
                       /\ A!Active(P, [ratio |-> Rep(rg), adv |-> a]) = A!Active(P, [ratio |-> Rep2(rg), adv |-> a])
+ASSUME EpRepresentative
 (* the reference is log pi_theta_0 for the whole update *)
 EpRefFixed == \A j \in HIdx : hist[j].refk = "entry"
 (* the listed clause on the use of the objective: in epoch j a sample whose ratio pi_theta_j / pi_theta_0 is clipped *)
